@@ -64,6 +64,9 @@ CHECKS = {
     "C19": ("recursive Hypothesis strategy over pipeline expression trees (providers, converters, arithmetic with scalars on either side, comparisons, unary minus, @) evaluated against a small interpreter (nested function application + numpy); metamorphic scale covariance; analytic Gaussian; mask-converter laws; currying",
             "Generated-program exploration: every generated pipeline expression is built with the library operators and compared with an independent interpreter of the same tree; @-chains are checked for associativity; physical-unit parameters are checked by the metamorphic relation (lambda*params, lambda*scale) == (params, scale), from_gaussian against the closed form, rescaling providers, extensivity laws of the mask converters, curried functions and loader.normalize_*.",
             "parameters passing through ceil/round/int are generated in the pixel domain away from discontinuities; arithmetic on comparison results is not generated; mask laws on masks r+1 voxels away from the faces", "4/C19"),
+    "C20": ("Hypothesis-generated volumes with planted particles placed relative to drawn chunk borders (interior / border / 8-chunk corner), dtypes, scales, chunkings incl. chunks smaller than the overlap; oracle = bijection between strong picks and planted particles, planted rotation for the template matcher, numpy vs chunked differential",
+            "Generated-input exploration against planted ground truth (each particle picked exactly once within 1 px, planted searched rotation reported, nothing strong elsewhere) plus a differential oracle between numpy input and a drawn dask chunking.",
+            "strong pick = score >= 0.5 (LoG/DoG) / 0.75 (template matcher) x median score at the planted sites; particles >= 7 sigma (1.6 template boxes) apart and 4 sigma away from the faces", "4/C20"),
 }
 
 NOT_YET = {}
